@@ -1,3 +1,45 @@
+/-
+  C19 — Zone names resolve as documented (decision logic of the model of
+  `FileZoneInfoSource::Open`, `local_time_zone` and the loader; the file system is a parameter).
+-/
 import Cctz.Model.Loader
+import Cctz.Proofs.LoaderInv
+
 namespace Cctz.C19
+open Cctz Cctz.Bytes Cctz.Loader
+
+/-- names beginning with '/' (after an optional "file:" prefix) are file paths, whatever TZDIR is -/
+def absolute_statement : Prop :=
+  ∀ (rest : Bytes) (tzdir : Option Bytes),
+    openPath (47 :: rest) tzdir = 47 :: rest ∧
+    openPath (ofString "file:" ++ 47 :: rest) tzdir = 47 :: rest
+
+/-- all other names are relative to $TZDIR, default /usr/share/zoneinfo (an empty TZDIR is ignored) -/
+def relative_statement : Prop :=
+  ∀ (name : Bytes) (dir : Bytes), name.headD 0 ≠ 47 → name.take 5 ≠ ofString "file:" →
+    openPath name none = ofString "/usr/share/zoneinfo" ++ 47 :: name ∧
+    openPath name (some []) = ofString "/usr/share/zoneinfo" ++ 47 :: name ∧
+    (dir.headD 0 ≠ 0 → (∀ c ∈ dir, c ≠ 0) → openPath name (some dir) = dir ++ 47 :: name)
+
+/-- local_time_zone(): follows $TZ ignoring one leading ':'; "localtime" maps to $LOCALTIME or else
+/etc/localtime; with TZ unset the name is "localtime" -/
+def local_statement : Prop :=
+  (∀ lt, localZoneName none lt = localZoneName (some (ofString "localtime")) lt) ∧
+  (∀ lt, localZoneName (some (ofString ":localtime")) lt = localZoneName (some (ofString "localtime")) lt) ∧
+  localZoneName (some (ofString "localtime")) none = ofString "/etc/localtime" ∧
+  (∀ p : Bytes, (∀ c ∈ p, c ≠ 0) → localZoneName (some (ofString "localtime")) (some p) = p) ∧
+  (∀ z : Bytes, (∀ c ∈ z, c ≠ 0) → z.headD 0 ≠ 58 → z ≠ ofString "localtime" → ∀ lt, localZoneName (some z) lt = z) ∧
+  (∀ z : Bytes, (∀ c ∈ z, c ≠ 0) → z ≠ ofString "localtime" → ∀ lt, localZoneName (some (58 :: z)) lt = z)
+
+/-- UTC, UTC0 and fixed-offset names are resolved internally: the loader never reaches the data
+source for them, and they always succeed -/
+def internal_names_statement : Prop :=
+  ∀ (w : World) (n : Name), isFixedName n = true → seqOk w n = true ∧
+    ∀ (names : List Name) (sched : List Nat) (τ : Nat), (τ, n) ∉ (run w (initState names) sched).log
+
+/-- a name that cannot be resolved, or whose data is rejected, fails — and the result is UTC -/
+def failure_is_utc_statement : Prop :=
+  ∀ (w : World) (names : List Name) (sched : List Nat) (i : Nat) (t : Thread) (id : Ident),
+    (run w (initState names) sched).threads[i]? = some t → t.pc = .done false id → id = .utc
+
 end Cctz.C19
